@@ -18,10 +18,25 @@ namespace Strophe.Assembly
 
 /-! ### bookkeeping invariant -/
 
-/-- `inner_text == NULL → inner_text_used == 0 ∧ inner_text_size == 0` -/
-def TextInv (s : State) : Prop := s.innerText = none → s.used = 0 ∧ s.size = 0
+/-- `inner_text == NULL → inner_text_used == 0 ∧ inner_text_size == 0`, and while text is pending
+    `strlen(inner_text) ≤ inner_text_used < inner_text_size` -/
+structure TextInv (s : State) : Prop where
+  null : s.innerText = none → s.used = 0 ∧ s.size = 0
+  pending : ∀ t, s.innerText = some t → t.length ≤ s.used ∧ s.used < s.size
 
-theorem textInv_init : TextInv init := fun _ => ⟨rfl, rfl⟩
+theorem textInv_init : TextInv init := ⟨fun _ => ⟨rfl, rfl⟩, fun t h => by simp [init] at h⟩
+
+theorem TextInv.of_eq {s s' : State} (h : TextInv s) (h1 : s'.innerText = s.innerText)
+    (h2 : s'.used = s.used) (h3 : s'.size = s.size) : TextInv s' :=
+  ⟨fun hn => by rw [h2, h3]; exact h.null (h1 ▸ hn), fun t ht => by rw [h2, h3]; exact h.pending t (h1 ▸ ht)⟩
+
+theorem cstr_length (d : Bytes) : (cstr d).length ≤ d.length := by
+  induction d with
+  | nil => simp [cstr]
+  | cons c rest ih =>
+    by_cases hc : c = 0
+    · simp [cstr, hc]
+    · simp [cstr, hc]; omega
 
 /-! ### the abstract assembler -/
 
@@ -119,7 +134,7 @@ theorem complete_inv (s s' : State) (hi : TextInv s) (h : completeInnerText s = 
     | cons f rest =>
       simp [ht, hp] at h
       subst h
-      exact ⟨fun _ => ⟨rfl, rfl⟩, rfl⟩
+      exact ⟨⟨fun _ => ⟨rfl, rfl⟩, fun t h => by simp at h⟩, rfl⟩
 
 /-- the projection applied to the result of a step -/
 def absR (r : Except Site (State × List Ev)) : Except Site (Abs × List Ev) :=
@@ -168,20 +183,50 @@ theorem end_abs (s : State) (n : Bytes) :
         | nil => simp [abs, hp]
         | cons p rest' => simp [abs, hp]
 
+theorem appendText_ok (s : State) (t d : Bytes) (h : t.length + d.length + 1 ≤ s.size) :
+    appendText s t d = .ok ({ s with innerText := some (t ++ cstr d), used := s.used + d.length }, []) := by
+  unfold appendText
+  have := cstr_length d
+  have hl : (t ++ cstr d).length + 1 ≤ s.size := by simp; omega
+  simp only [hl, if_true]
+
+/-- what `_characters` does at depth ≥ 2 under the invariant -/
+theorem chars_ok (s : State) (d : Bytes) (hi : TextInv s) (h2 : ¬ s.depth < 2) :
+    ∃ sz, characters s d = .ok ({ s with innerText := some (s.innerText.getD [] ++ cstr d),
+                                         used := s.used + d.length, size := sz }, []) ∧
+          s.used + d.length < sz := by
+  unfold characters
+  rw [pin_minDepth]
+  cases ht : s.innerText with
+  | none =>
+    obtain ⟨hu, hs⟩ := hi.null ht
+    refine ⟨d.length + 1 + padding, ?_, by omega⟩
+    simp only [h2, hu, hs, if_false]
+    simp only [Nat.zero_add, ge_iff_le, Nat.zero_le, if_true]
+    rw [appendText_ok _ [] d (by simp)]
+    simp [hu]
+  | some t =>
+    obtain ⟨hl, hus⟩ := hi.pending t ht
+    by_cases hr : s.used + d.length ≥ s.size
+    · refine ⟨s.used + d.length + 1 + padding, ?_, by omega⟩
+      simp only [h2, hr, if_false, if_true]
+      rw [List.take_of_length_le hl]
+      rw [appendText_ok _ t d (by simp; omega)]
+      simp
+    · refine ⟨s.size, ?_, by omega⟩
+      simp only [h2, hr, if_false]
+      rw [appendText_ok _ t d (by omega)]
+      simp
+
 theorem chars_abs (s : State) (d : Bytes) (hi : TextInv s) :
     absR (characters s d) = .ok (aChars (abs s) d, []) := by
-  unfold characters aChars absR
-  rw [pin_minDepth]
   by_cases h2 : s.depth < 2
-  · simp [h2, abs, Except.map]
-  · cases ht : s.innerText with
-    | none =>
-      obtain ⟨hu, hs⟩ := hi ht
-      simp [h2, ht, hu, hs, abs, Except.map]
-    | some t =>
-      by_cases hr : s.used + d.length ≥ s.size
-      · simp [h2, ht, hr, abs, Except.map]
-      · simp [h2, ht, hr, abs, Except.map]
+  · unfold characters aChars absR
+    rw [pin_minDepth]
+    simp [h2, abs, Except.map]
+  · obtain ⟨sz, hc, _⟩ := chars_ok s d hi h2
+    rw [hc]
+    simp [absR, Except.map, aChars, abs, h2]
 
 theorem step_abs (s : State) (i : In) (hi : TextInv s) :
     absR (step s i) = aStep (abs s) i := by
@@ -198,49 +243,57 @@ theorem step_inv (s s' : State) (i : In) (e : List Ev) (hi : TextInv s) (h : ste
   | start n a =>
     simp only [step, startElement] at h
     by_cases h0 : s.depth = 0
-    · simp [h0] at h; rw [← h.1]; exact hi
+    · simp [h0] at h; rw [← h.1]; exact hi.of_eq rfl rfl rfl
     · by_cases h1 : (s.path.isEmpty && s.depth != 1) = true
-      · simp [h0, h1] at h; rw [← h.1]; exact hi
+      · simp [h0, h1] at h; rw [← h.1]; exact hi.of_eq rfl rfl rfl
       · cases hp : s.path with
-        | nil => simp [h0, hp] at h1 h; simp [h1] at h; rw [← h.1]; exact hi
+        | nil => simp [h0, hp] at h1 h; simp [h1] at h; rw [← h.1]; exact hi.of_eq rfl rfl rfl
         | cons f rest =>
           cases hc : completeInnerText s with
           | error x => simp [h0, hp, hc, bind, Except.bind] at h
           | ok s1 =>
             simp [h0, hp, hc, bind, Except.bind] at h
             have := (complete_inv s s1 hi hc).1
-            rw [← h.1]; exact this
+            rw [← h.1]; exact this.of_eq rfl rfl rfl
   | end_ n =>
     simp only [step, endElement] at h
     by_cases h0 : s.depth - 1 = 0
-    · simp [h0] at h; rw [← h.1]; exact hi
+    · simp [h0] at h; rw [← h.1]; exact hi.of_eq rfl rfl rfl
     · cases hc : completeInnerText { s with depth := s.depth - 1 } with
       | error x => simp [h0, hc, bind, Except.bind] at h
       | ok s1 =>
-        have hi1 := (complete_inv _ s1 (show TextInv { s with depth := s.depth - 1 } from hi) hc).1
+        have hi1 := (complete_inv _ s1 (hi.of_eq rfl rfl rfl : TextInv { s with depth := s.depth - 1 }) hc).1
         simp [h0, hc, bind, Except.bind] at h
         cases hp : s1.path with
         | nil => simp [hp] at h
         | cons f rest =>
           cases rest with
-          | nil => simp [hp] at h; rw [← h.1]; exact hi1
-          | cons p rest' => simp [hp] at h; rw [← h.1]; exact hi1
+          | nil => simp [hp] at h; rw [← h.1]; exact hi1.of_eq rfl rfl rfl
+          | cons p rest' => simp [hp] at h; rw [← h.1]; exact hi1.of_eq rfl rfl rfl
   | chars d =>
-    simp only [step, characters] at h
-    rw [pin_minDepth] at h
+    simp only [step] at h
     by_cases h2 : s.depth < 2
-    · simp [h2] at h; rw [← h.1]; exact hi
-    · cases ht : s.innerText with
-      | none =>
-        obtain ⟨hu, hs⟩ := hi ht
-        simp [h2, ht, hu, hs] at h
-        rw [← h.1]; intro hn; simp at hn
-      | some t =>
-        by_cases hr : s.used + d.length ≥ s.size
-        · simp [h2, ht, hr] at h; rw [← h.1]; intro hn; simp at hn
-        · simp [h2, ht, hr] at h; rw [← h.1]; intro hn; simp at hn
-  | err => simp [step] at h; rw [← h.1]; exact hi
-  | reset => simp [step] at h; rw [← h.1]; intro _; exact ⟨rfl, rfl⟩
+    · unfold characters at h
+      rw [pin_minDepth] at h
+      simp [h2] at h; rw [← h.1]; exact hi.of_eq rfl rfl rfl
+    · obtain ⟨sz, hc, hsz⟩ := chars_ok s d hi h2
+      rw [hc] at h
+      simp at h
+      rw [← h.1]
+      refine ⟨fun hn => by simp at hn, fun t ht => ?_⟩
+      simp at ht
+      subst ht
+      refine ⟨?_, hsz⟩
+      have := cstr_length d
+      cases hx : s.innerText with
+      | none => simp [hx]; omega
+      | some t0 =>
+        have := (hi.pending t0 hx).1
+        simp [hx]; omega
+  | err => simp [step] at h; rw [← h.1]; exact hi.of_eq rfl rfl rfl
+  | reset =>
+    simp [step] at h; rw [← h.1]
+    exact ⟨fun _ => ⟨rfl, rfl⟩, fun t ht => by simp [reset] at ht⟩
 
 theorem run_abs (s : State) (ins : List In) (hi : TextInv s) : run s ins = aRun (abs s) ins := by
   induction ins generalizing s with
@@ -556,6 +609,21 @@ theorem aExec_shape (σ : Abs) (d : Nat) (ins : List In) (h : Shape σ d) (hb : 
     | chars dta => exact ih σ' d hsh (by simpa [balancedFrom] using hb)
     | err => exact ih σ' d hsh (by simpa [balancedFrom] using hb)
     | reset => exact ih σ' 0 hsh (by simpa [balancedFrom] using hb)
+
+theorem balancedFrom_append_reset (d : Nat) (a r : List In) :
+    balancedFrom d (a ++ In.reset :: r) = (balancedFrom d a && balancedFrom 0 r) := by
+  induction a generalizing d with
+  | nil => simp [balancedFrom]
+  | cons i rest ih =>
+    cases i with
+    | start n at' => simp [balancedFrom, ih]
+    | end_ n =>
+      cases d with
+      | zero => simp [balancedFrom]
+      | succ k => simp [balancedFrom, ih]
+    | chars dta => simp [balancedFrom, ih]
+    | err => simp [balancedFrom, ih]
+    | reset => simp [balancedFrom, ih]
 
 /-! ### appending traces (concrete machine) -/
 
